@@ -25,6 +25,17 @@ pub struct NumericParts {
 impl From<Numeric> for NumericParts {
     fn from(value: Numeric) -> NumericParts {
         let (exact, approx) = value.string_repr(10, Digits::Default);
+        if let Numeric::Float(f) = value {
+            if !f.is_finite() {
+                // NaN and infinities have no rational form to report.
+                return NumericParts {
+                    numer: value.to_string(10, Digits::Default).1,
+                    denom: "1".to_owned(),
+                    exact_value: exact,
+                    approx_value: approx,
+                };
+            }
+        }
         let (num, den) = value.to_rational();
         NumericParts {
             numer: num.to_string(),
